@@ -7,6 +7,13 @@
 //        (u64 bit patterns; which: 0 sqrt, 1 pow, 2 polar), or the tag `tnohook` when the ohsl tree
 //        the executor was built against does not carry the hook (see harness/build.rs).
 //   roots.prim <which> xA xB xC xD   -> the two result floats of Complex::sqrt / pow / polar (public API)
+//   roots.twice [coeffs] <f1 0|1> <f2 0|1> [[coeffs2]]
+//     history / same object: ONE polynomial object p; p.roots(f1), then (if coeffs2 is given) *p.coeffs() = coeffs2,
+//     then p.roots(f2) on the same object, then p.clone().roots(f2), then a FRESH object built from the current
+//     coefficients .roots(f2).
+//     -> three vectors: second call on the same object, call on the clone, call on the fresh object
+//        (each: usize n, 2n floats).  The coefficients of p are compared bitwise with the input afterwards
+//        (`operand mutated` is reported by the engine as a violation).
 #![allow(unused_imports, dead_code)]
 use ohsl::{Cmplx, Polynomial, Vector};
 use crate::io::{Args, Out, Elt};
@@ -62,6 +69,37 @@ pub fn run(elt: &str, kind: &str, a: &mut Args, out: &mut Out) {
                         for x in res.iter() { out.int(*x as i128); }
                     }
                 }
+            }
+        }
+        "roots.twice" => {
+            fn same_bits(a: &[f64], b: &[f64]) -> bool { a.len() == b.len() && a.iter().zip(b.iter()).all(|(x, y)| x.to_bits() == y.to_bits()) }
+            match elt {
+                "f64" => {
+                    let c = a.vec_std::<f64>();
+                    let (f1, f2) = (a.usize() != 0, a.usize() != 0);
+                    let mut p = Polynomial::<f64>::new(c.clone());
+                    let _first = p.roots(f1);
+                    let c = if a.more() { let c2 = a.vec_std::<f64>(); *p.coeffs() = c2.clone(); c2 } else { c };
+                    let second = p.roots(f2);
+                    let cloned = p.clone().roots(f2);
+                    let fresh = Polynomial::<f64>::new(c.clone()).roots(f2);
+                    if !same_bits(p.coeffs(), &c) { panic!("harness: operand mutated by Polynomial<f64>::roots"); }
+                    out.v(&second); out.v(&cloned); out.v(&fresh);
+                }
+                "cplx" => {
+                    let c = a.vec_std::<Cmplx>();
+                    let (f1, f2) = (a.usize() != 0, a.usize() != 0);
+                    let mut p = Polynomial::<Cmplx>::new(c.clone());
+                    let _first = p.roots(f1);
+                    let c = if a.more() { let c2 = a.vec_std::<Cmplx>(); *p.coeffs() = c2.clone(); c2 } else { c };
+                    let second = p.roots(f2);
+                    let cloned = p.clone().roots(f2);
+                    let fresh = Polynomial::<Cmplx>::new(c.clone()).roots(f2);
+                    let flat = |v: &Vec<Cmplx>| -> Vec<f64> { v.iter().flat_map(|z| [z.real, z.imag]).collect() };
+                    if !same_bits(&flat(p.coeffs()), &flat(&c)) { panic!("harness: operand mutated by Polynomial<Cmplx>::roots"); }
+                    out.v(&second); out.v(&cloned); out.v(&fresh);
+                }
+                _ => panic!("harness: roots.twice needs elt f64 or cplx, got {}", elt),
             }
         }
         "roots.prim" => {
